@@ -78,6 +78,11 @@ Proof. exact from_to_string_v6. Qed.
 Theorem C18_addr : forall a, wf_addr a -> addr_valid a = true -> from_string (to_string a) = Some (strip a).
 Proof. exact from_to_string. Qed.
 
+(* ... and to_string is the inverse of from_string on the printed forms *)
+Theorem C18_to_from_string : forall a, wf_addr a -> addr_valid a = true ->
+  option_map to_string (from_string (to_string a)) = Some (to_string a).
+Proof. exact to_from_string. Qed.
+
 (* the text determines the IP *)
 Theorem C18_to_string_injective : forall a b, wf_addr a -> wf_addr b -> addr_valid a = true -> addr_valid b = true ->
   (to_string a = to_string b <-> strip a = strip b).
@@ -142,6 +147,12 @@ Example C18_ex_null_tcptype :
   parse_candidate_full [97; 61; 99; 97; 110; 100; 105; 100; 97; 116; 101; 58; 49; 32; 49; 32; 84; 67; 80; 32; 53; 32; 49; 46; 50; 46; 51;
                         46; 52; 32; 53; 32; 116; 121; 112; 32; 104; 111; 115; 116]
   = PCand (mkCand 0 3 (A4 16909060 5) AUnspec 5 1 [49]) true.
+Proof. vm_compute. reflexivity. Qed.
+
+(* the boundary of the round-trip statement: a space inside the foundation splits the token ("a b" comes back as "a",
+   the line no longer parses as intended) — foundations are ice-chars, DESIGN.md §3 C18 states the theorem without ' ' *)
+Example C18_ex_space_in_foundation :
+  parse_candidate (gen_candidate (mkCand 0 0 (A4 16909060 5) AUnspec 5 1 [97; 32; 98])) = None.
 Proof. vm_compute. reflexivity. Qed.
 
 (* garbage: "a=candidate:x" and "a=candidate:1 1 UDP 1 999.1.1.1 1 typ host" *)
